@@ -138,3 +138,64 @@ Proof.
   cbv beta iota zeta delta [wstep w_pc w_calls w_fixed set_pc w_bal w_deact check].
   destruct d; [reflexivity|]. destruct (peers b); [congruence|reflexivity].
 Qed.
+
+(* ---------- several waiters ---------- *)
+Lemma nth_set_nth_same {A} (d : A) : forall l i x, (i < length l)%nat -> nth i (set_nth i x l) d = x.
+Proof. induction l as [|h t IH]; intros [|i] x H; cbn in *; try lia; [reflexivity|apply IH; lia]. Qed.
+Lemma nth_set_nth_other {A} (d : A) : forall l i j x, i <> j -> nth j (set_nth i x l) d = nth j l d.
+Proof.
+  induction l as [|h t IH]; intros [|i] [|j] x H; cbn; try reflexivity; try congruence. apply IH. congruence.
+Qed.
+Lemma set_nth_length {A} : forall (l : list A) i x, length (set_nth i x l) = length l.
+Proof. induction l as [|h t IH]; intros [|i] x; cbn; auto. Qed.
+
+Lemma estep_indep_pc s e : forall p,
+  w_bal (estep (set_pc s p) e) = w_bal (estep s e) /\ w_calls (estep (set_pc s p) e) = w_calls (estep s e) /\
+  w_deact (estep (set_pc s p) e) = w_deact (estep s e).
+Proof. intros p. destruct e; cbn; auto. Qed.
+
+(* waiter i of the shared system behaves exactly like the single-waiter model under the part of the schedule it sees *)
+Lemma mproj_step m x i : (i < length (m_pcs m))%nat ->
+  mproj (mstep m x) i = fold_left sstep (msched_of i x) (mproj m i) /\ length (m_pcs (mstep m x)) = length (m_pcs m).
+Proof.
+  intros Hi. destruct x as [j|e]; cbn [mstep msched_of].
+  - destruct (Nat.ltb_spec j (length (m_pcs m))) as [Hj|Hj].
+    + destruct (wstep (mproj m j)) as [s'|] eqn:Ew.
+      * destruct (Nat.eqb_spec j i) as [->|Hne].
+        { cbn [fold_left sstep]. rewrite Ew. unfold mproj at 1. cbn [m_bal m_calls m_deact m_pcs].
+          rewrite nth_set_nth_same by exact Hi. rewrite set_nth_length. split; [|reflexivity].
+          unfold wstep in Ew. unfold mproj in *. cbn [w_pc w_fixed w_calls] in Ew.
+          destruct (nth i (m_pcs m) (PDone true)) as [| | | |seen|seen|ok]; try (inversion Ew; subst; reflexivity);
+            try (destruct (m_calls m =? seen)%nat; inversion Ew; subst; reflexivity); try discriminate. }
+        { cbn [fold_left]. unfold mproj. cbn [m_bal m_calls m_deact m_pcs].
+          rewrite nth_set_nth_other by exact Hne. rewrite set_nth_length. split; reflexivity. }
+      * destruct (Nat.eqb_spec j i) as [->|Hne]; cbn [fold_left sstep]; [rewrite Ew|]; split; reflexivity.
+    + destruct (Nat.eqb_spec j i) as [->|Hne]; [lia|]. cbn. split; reflexivity.
+  - cbn [fold_left sstep]. unfold mproj. cbn [m_bal m_calls m_deact m_pcs]. split; [|reflexivity].
+    destruct e; cbn; reflexivity.
+Qed.
+
+Lemma mproj_run : forall xs m i, (i < length (m_pcs m))%nat ->
+  mproj (mrun xs m) i = srun (concat (map (msched_of i) xs)) (mproj m i) /\ length (m_pcs (mrun xs m)) = length (m_pcs m).
+Proof.
+  induction xs as [|x xs IH]; intros m i Hi; [cbn; auto|].
+  cbn [mrun fold_left map concat]. destruct (mproj_step m x i Hi) as [H1 H2].
+  fold (mrun xs (mstep m x)). destruct (IH (mstep m x) i ltac:(rewrite H2; exact Hi)) as [I1 I2].
+  rewrite I1, H1, I2, H2. unfold srun. rewrite fold_left_app. split; reflexivity.
+Qed.
+
+Lemma nth_repeat_lt {A} (x d : A) : forall n i, (i < n)%nat -> nth i (repeat x n) d = x.
+Proof. induction n as [|n IH]; intros [|i] H; cbn; try lia; [reflexivity|apply IH; lia]. Qed.
+
+Definition mlost (m : mwst) (i : nat) : bool := lost (mproj m i).
+
+(* no waiter of any number of concurrently waiting tasks is ever left asleep next to a connected peer, for every
+   interleaving of their steps with add_connection / remove_connection / deactivate *)
+Theorem wait_all_waiters_safe n xs i : (i < n)%nat -> mlost (mrun xs (mw0 n)) i = false.
+Proof.
+  intros Hi. unfold mlost.
+  destruct (mproj_run xs (mw0 n) i) as [H _]; [cbn; rewrite repeat_length; exact Hi|].
+  rewrite H. replace (mproj (mw0 n) i) with (w0 true).
+  - apply wait_fixed_safe.
+  - unfold mproj, mw0, w0. cbn. f_equal. symmetry. apply nth_repeat_lt. exact Hi.
+Qed.
